@@ -1,5 +1,6 @@
 import Mathlib.LinearAlgebra.Matrix.Adjugate
 import BronVerif.Lemmas.PolyList
+import BronVerif.Lemmas.GaussJordanDet
 /-!
 # Cramer's rule on list matrices (for `birkhoff.Interpolate`)
 -/
@@ -8,9 +9,6 @@ open BronVerif BronVerif.LinAlg BronVerif.Poly BronVerif.Lemmas.PolyList
 open scoped BigOperators Matrix
 
 variable {F : Type} [Field F]
-
-/-- a list matrix read as an `n × n` Mathlib matrix -/
-def toMatrix (n : ℕ) (m : Mat F) : Matrix (Fin n) (Fin n) F := fun i j => entry m i j
 
 /-- Cramer's rule (Mathlib's `Matrix.mulVec_cramer`) in the form the Go code uses:
 `coeff_k = det(A with column k replaced by y) / det A` solves `A · coeff = y` -/
